@@ -21,8 +21,10 @@ WATCHDOG_S = 60
 
 def build_doc():
     import odml
-    doc = odml.Document(author="me", version="1")
-    a = odml.Section(name="A", type="t", parent=doc, definition="defA")
+    # repositories on the Document and on one Section: the Sections below them have none of their own (they inherit)
+    doc = odml.Document(author="me", version="1", repository="file:///nonexistent-odml-verif/doc_terms.xml")
+    a = odml.Section(name="A", type="t", parent=doc, definition="defA",
+                     repository="file:///nonexistent-odml-verif/sec_terms.xml")
     odml.Property(name="p_int", values=[1, 2], parent=a, unit="mV", uncertainty=0.5, val_cardinality=(1, 4))
     odml.Property(name="p_str", values=["x"], parent=a, definition="d")
     odml.Property(name="p_tup", values=["(1;2)", "(3;4)"], dtype="2-tuple", parent=a)
